@@ -6,7 +6,7 @@
    at binary64, to the implementation.  Labels are arbitrary integers; all sizes are unbounded. *)
 From Coq Require Import List ZArith Bool Arith Reals Lra.
 From SC Require Import Base.Num C11.Model C11.ProofsLabels C11.ProofsCounts C11.ProofsStats
-     C11.ProofsStats2 C11.ProofsArgmax.
+     C11.ProofsStats2 C11.ProofsArgmax C11.ProofsPredict.
 Import ListNotations.
 
 (* (1) label -> class-index mapping: the class list is strictly increasing (hence duplicate-free), contains
@@ -150,6 +150,79 @@ Theorem C11_predict_is_map : forall (classes : list Z) (priors : list R) (ll : n
             (forall j, (k < j < length classes)%nat ->
                        (class_score ROps ll priors j < class_score ROps ll priors k)%R).
 Proof. exact predict_row_map. Qed.
+
+(* (9) predict of each fitted variant is total over the reals and every returned label is a MAP class
+   (is_map: label = classes[k] for an index k maximising log-likelihood + ln prior under the fitted
+   statistics).  Query rows are arbitrary (inside or outside the training set); for the categorical variant
+   their entries must be convertible to a category code (otherwise the code panics). *)
+Theorem C11_gaussian_predict_is_map : forall (pi_ : R) (x : list (list R)) (y : list Z)
+    (user : option (list R)) (m : gnb) (q : list (list R)),
+  gaussian_fit ROps x y user = Some m ->
+  exists labels, gaussian_predict ROps pi_ m q = Some labels /\
+    Forall2 (fun row label => is_map m.(g_classes) m.(g_priors) (gaussian_ll ROps pi_ m row) label) q labels.
+Proof. exact gaussian_predict_map. Qed.
+
+Theorem C11_multinomial_predict_is_map : forall (to_usize : R -> option nat) (x : list (list R)) (y : list Z)
+    (alpha : R) (user : option (list R)) (m : cnb) (q : list (list R)),
+  multinomial_fit ROps to_usize x y alpha user = Some m ->
+  exists labels, multinomial_predict ROps m q = Some labels /\
+    Forall2 (fun row label => is_map m.(c_classes) m.(c_priors) (multinomial_ll ROps m row) label) q labels.
+Proof. exact multinomial_predict_map. Qed.
+
+Theorem C11_bernoulli_predict_is_map : forall (to_usize : R -> option nat) (x0 : list (list R)) (y : list Z)
+    (alpha : R) (user : option (list R)) (th : option R) (m : cnb) (q : list (list R)),
+  bernoulli_fit ROps to_usize x0 y alpha user th = Some m ->
+  exists labels, bernoulli_predict ROps m th q = Some labels /\
+    Forall2 (fun row label => is_map m.(c_classes) m.(c_priors) (bernoulli_ll ROps m row) label)
+            (binarize ROps th q) labels.
+Proof. exact bernoulli_predict_map. Qed.
+
+Theorem C11_categorical_predict_is_map : forall (to_cat : R -> option nat) (x : list (list R)) (y : list Z)
+    (alpha : R) (m : catnb) (q : list (list R)),
+  categorical_fit ROps to_cat x y alpha = Some m ->
+  (forall row, In row q -> forall v, In v row -> to_cat v <> None) ->
+  exists labels, categorical_predict ROps to_cat m q = Some labels /\
+    Forall2 (fun row label =>
+               exists lls, Forall2 (fun k v => categorical_ll ROps to_cat m row k = Some v)
+                                   (seq 0 (length m.(k_classes))) lls /\
+                           is_map m.(k_classes) m.(k_priors) (fun k => nth k lls 0%R) label)
+            q labels.
+Proof. exact categorical_predict_map. Qed.
+
+(* (10) the count-based fitted models report the classes / counts / priors of (1)-(3) *)
+Theorem C11_multinomial_bookkeeping : forall (to_usize : R -> option nat) (x : list (list R)) (y : list Z)
+    (alpha : R) (user : option (list R)) (m : cnb),
+  multinomial_fit ROps to_usize x y alpha user = Some m ->
+  let classes := fst (unique_with_indices y) in
+  let counts := count_classes (length classes) (snd (unique_with_indices y)) in
+  length x = length y /\ (0 < length x)%nat /\
+  m.(c_classes) = classes /\ m.(c_count) = counts /\
+  class_priors ROps user counts (length x) = Some m.(c_priors).
+Proof. exact counts_bookkeeping_multinomial. Qed.
+
+Theorem C11_bernoulli_bookkeeping : forall (to_usize : R -> option nat) (x : list (list R)) (y : list Z)
+    (alpha : R) (user : option (list R)) (th : option R) (m : cnb),
+  bernoulli_fit ROps to_usize x y alpha user th = Some m ->
+  let classes := fst (unique_with_indices y) in
+  let counts := count_classes (length classes) (snd (unique_with_indices y)) in
+  length x = length y /\ (0 < length x)%nat /\
+  m.(c_classes) = classes /\ m.(c_count) = counts /\
+  class_priors ROps user counts (length x) = Some m.(c_priors).
+Proof. exact counts_bookkeeping_bernoulli. Qed.
+
+(* categorical: classes 0..max label, counts per label value (0 for a value that never occurs) totalling n,
+   priors = count / n, summing to one *)
+Theorem C11_categorical_bookkeeping : forall (to_cat : R -> option nat) (x : list (list R)) (y : list Z)
+    (alpha : R) (m : catnb),
+  categorical_fit ROps to_cat x y alpha = Some m ->
+  exists yl, labels_to_usize y = Some yl /\ length yl = length x /\ (0 < length x)%nat /\
+    m.(k_classes) = map Z.of_nat (seq 0 (max_nat yl + 1)) /\
+    (forall l, (l < max_nat yl + 1)%nat ->
+               nth l m.(k_count) 0%nat = length (filter (fun v => Nat.eqb v l) yl)) /\
+    list_sum m.(k_count) = length x /\
+    m.(k_priors) = map (fun c => (INR c / INR (length x))%R) m.(k_count) /\
+    Rsum m.(k_priors) = 1%R.
+Proof. exact categorical_bookkeeping. Qed.
 
 (* ---------- the hypotheses are satisfiable (non-contiguous, unordered, negative labels) ---------- *)
 Example C11_labels_instance :
